@@ -1,8 +1,9 @@
 """Registry: property id -> check function(tier, replay_path) -> exit code."""
-from . import adv, engine, misc, server
+from . import adv, engine, misc, numeric, server
 
 REGISTRY = {}
 REGISTRY.update(engine.REGISTRY)
 REGISTRY.update(server.REGISTRY)
 REGISTRY.update(misc.REGISTRY)
 REGISTRY.update(adv.REGISTRY)
+REGISTRY.update(numeric.REGISTRY)
